@@ -281,4 +281,19 @@ theorem multi_dead {c : Cfg} (hG : GInv c) (hI : IInv c) (hU : UInv c) (hS : SIn
           exact .parkedProducer hprP hpc (prodWake_pWake h4) q hq hnd' hsr hex
             (Queue.XOK_cap (hlive.base.xok t.qt (List.mem_of_getElem? hx)) h4)
 
+/-- threads keep their index and their program -/
+theorem prog_persist {c0 c : Cfg} (h : Reachable c0 c) {i : Queue.Tid} {t0 : Thread} (h0 : c0.ths[i]? = some t0) :
+    ∃ t, c.ths[i]? = some t ∧ t.prog = t0.prog := by
+  induction h with
+  | init => exact ⟨t0, h0, rfl⟩
+  | @step c1 c2 tid lbl _ hs ih =>
+    obtain ⟨u, hu, hp⟩ := ih
+    obtain ⟨tt, htt⟩ := step_some_thread hs
+    obtain ⟨t', hk, hl⟩ := step_eff htt hs
+    by_cases hi : i = tid
+    · subst hi
+      rw [htt] at hu; obtain rfl := Option.some.inj hu
+      exact ⟨t', hk.get_self htt, by rw [hl.prog, hp]⟩
+    · exact ⟨u, hk.get_other hi hu, hp⟩
+
 end MlModel.Prefetch
